@@ -351,6 +351,8 @@ def no_abort(ctx, rep):
 
 def helper_contracts(ctx, rep):
     """structural contracts of the small string helpers that the exit summaries replace by summaries (so their bodies are checked here)"""
+    from .rules_cmp import lazy_normaliser_semantics
+    lazy_normaliser_semantics(ctx, rep)
     for cfg in (ctx.configs('path') if ctx.tier == 'thorough' else ['NsS']):
         P = ctx.prog(cfg)
         if cfg not in rep.configs: rep.configs.append(cfg)
